@@ -197,7 +197,7 @@ def run_scan(ctx, i, rng):
       # the module itself is carried: its side effects must be threaded through the steps; xs scanned, ys stacked
       a0 = base_arrays(nr, d)
       model = C['Cell'](a0)
-      in_x, out_y = rng.choice([0, 0, 1]), rng.choice([0, 1])
+      in_x, out_y = rng.choice([0, 0, 1, 2, -1, -2, 2]), rng.choice([0, 1, 2, -1])   # every axis of the rank-3 data, either sign
       xs_t = [nr.uniform(-1, 1, size=(bsz, d)).astype(np.float32) for _ in range(T)]
       xs = np.stack(xs_t, axis=in_x)
       desc.update(in_axes_x=in_x, out_axes_y=out_y)
